@@ -87,7 +87,7 @@ def areas(txt):
     return out
 
 
-def roundtrip(cpu, mem, tag, via='bin', entries=None, must=True):
+def roundtrip(cpu, mem, tag, via='bin', entries=None, must=True, leaves_ok=False):
     """mem is an assembler-produced image: the property applies.  Returns R."""
     o = dasl(cpu, mem, via, entries)
     ck = core.crashkind(o)
@@ -97,6 +97,11 @@ def roundtrip(cpu, mem, tag, via='bin', entries=None, must=True):
     if o.rc != 0:
         return core.R(False, 'dasl-rc', '%s/dasl-status' % cpu, 'dasl exit %s on %s' % (o.rc, d))
     T = clean(o.out.decode('latin-1'))
+    refs = set(re.findall(r'\b((?:lab|sub)_[0-9A-Fa-f]+h?)\b', T))
+    defs = set(re.findall(r'^((?:lab|sub)_[0-9A-Fa-f]+h?):', T, re.M))
+    if leaves_ok and refs - defs:
+        # a jump or call out of the loaded image: outside the property (branches and calls lead into the image)
+        return core.R(True, 'leaves-the-image', nontrivial=False, transitions=1)
     ar = areas(T)
     lo, hi = min(mem), max(mem)
     cover = {}
@@ -127,6 +132,28 @@ def roundtrip(cpu, mem, tag, via='bin', entries=None, must=True):
 # ---- generators ----------------------------------------------------------------------------------
 
 BR6800 = ['bra', 'bne', 'beq', 'bcc', 'bcs', 'bpl', 'bmi', 'bvc', 'bvs', 'bge', 'blt', 'bgt', 'ble', 'bhi', 'bls', 'bsr']
+
+
+def corpus_line_programs():
+    """every statement of the golden sources of the three targets as a one-instruction program (label `targ` in front, so that
+    branches lead into the image; statements the assembler rejects in isolation drop out as program-invalid)"""
+    import os
+    from .. import corpus
+    for t, cpu, tail, head in (('t_87c800', '87C00', '\tret\n', ''), ('t_4004', '4004', '\tnop\n\tbbl 0\n', ''), ('t_6801', '6800', '\tswi\n', '')):
+        try:
+            lines = open(os.path.join(corpus.tdir(), t, t + '.asm'), 'rb').read().decode('latin-1').split('\n')
+        except OSError:
+            continue
+        seen = set()
+        for l in lines:
+            m = re.match(r'^(?:\w+:?)?\s+([a-z][\w.]*)(\s+[^;]*)?', l)
+            if not m or m.group(1).lower() in ('cpu', 'include', 'page', 'org', 'end', 'db', 'dw', 'equ', 'fcb', 'fdb', 'ds', 'rmb', 'data', 'segment', 'assume', 'irp', 'endm', 'macro', 'rept'):
+                continue
+            stmt = (m.group(1) + (m.group(2) or '')).strip()
+            if stmt in seen:
+                continue
+            seen.add(stmt)
+            yield {'k': 'prog', 'cpu': cpu, 'src': '\torg 256\ntarg:\tnop\n\t%s\n%s' % (stmt, tail), 'tag': '%s: %s' % (t, stmt), 'entries': [257], 'leaves_ok': True}
 
 
 def table_programs():
@@ -188,6 +215,7 @@ def subspaces(tier):
         subs.append(('a:images-%s' % cpu, images(cpu)))
     subs.append(('b:branch-distance-programs', list(programs(tier))))
     subs.append(('c:every-6800-and-4004-instruction-form', list(table_programs())))
+    subs.append(('d:every-statement-of-the-golden-sources', list(corpus_line_programs())))
     return subs
 
 
@@ -217,8 +245,8 @@ def evaluate(case):
     Y, err = asm_image(cpu, case['src'], False, 0, 0)
     if Y is None:
         return core.R(True, 'program-invalid', nontrivial=False)
-    r = roundtrip(cpu, Y, case['tag'], 'bin', case.get('entries'))
-    if not r['ok']:
+    r = roundtrip(cpu, Y, case['tag'], 'bin', case.get('entries'), leaves_ok=case.get('leaves_ok', False))
+    if not r['ok'] or r['outcome'] == 'leaves-the-image':
         return r
     r2 = roundtrip(cpu, Y, case['tag'] + ' via hex', 'hex', case.get('entries'))
     if not r2['ok']:
